@@ -18,7 +18,7 @@
      spec_lookup e ty syn sec k     first defined [layer_value] scanning documented_order from
                                     its most specific end (User) down to Default.              *)
 From Emmet Require Import lib.Base lib.ConfigLib gen.GenLayerOrder gen.GenConfig model.Config
-  proofs.ConfigProofs proofs.ConfigTables proofs.ConfigPurity.
+  proofs.ConfigProofs proofs.ConfigTables proofs.ConfigTablesExt proofs.ConfigPurity.
 
 (* ---- the order of the update statements read from the source IS the documented one
    (swapping two `result.update` lines, or fetching a layer from the other table or under
@@ -129,6 +129,45 @@ Theorem C20_tables_for_all_syntaxes :
     forall k, k <> probe -> dget k (planted_result ty syn sec bits) = dget k (plain_result ty syn sec).
 Proof. exact tables_for_all_syntaxes. Qed.
 Print Assumptions C20_tables_for_all_syntaxes.
+
+(* ---- the same finite table for EVERY syntax name under BOTH types (proofs/ConfigTablesExt.v):
+   all listed syntaxes (also under the other type), the keys of SYNTAX_CONFIG that are no listed
+   syntax (markup, stylesheet, xhtml) and a name without table entry ("zzz") *)
+Theorem C20_tables_for_all_names :
+  forall ty syn, In (ty, syn) distinct_pairs ->
+  forall sec, In sec init_sections ->
+  forall bits, In bits all_subsets ->
+    dget probe (planted_result ty syn sec bits) = expected (subset_of_bits bits) /\
+    forall k, k <> probe -> dget k (planted_result ty syn sec bits) = dget k (plain_result ty syn sec).
+Proof. exact tables_for_all_names. Qed.
+Print Assumptions C20_tables_for_all_names.
+
+(* type name = syntax name: type layer and syntax layer are the same dict, the planting under
+   the syntax name replaces the one under the type name; otherwise the documented order *)
+Theorem C20_tables_for_type_named_syntax :
+  forall ty syn, In (ty, syn) same_pairs ->
+  forall sec, In sec init_sections ->
+  forall bits, In bits all_subsets ->
+    dget probe (planted_result ty syn sec bits) = expected_same (subset_of_bits bits) /\
+    forall k, k <> probe -> dget k (planted_result ty syn sec bits) = dget k (plain_result ty syn sec).
+Proof. exact tables_for_type_named_syntax. Qed.
+Print Assumptions C20_tables_for_type_named_syntax.
+
+Theorem C20_ext_pairs_covered :
+  forall ty syn, In ty type_names -> In syn all_names ->
+    In (ty, syn) distinct_pairs \/ In (ty, syn) same_pairs.
+Proof. exact ext_pairs_covered. Qed.
+Print Assumptions C20_ext_pairs_covered.
+
+(* every name the built-in table does not know gives, cell for cell, the configuration of "zzz"
+   (whose cells are in the sweep above): unknown syntax names fall back to the type's layers *)
+Theorem C20_unknown_names_like_sample :
+  forall ty syn sec d td to u,
+    ~ In syn table_keys -> syn <> ty -> unknown_sample <> ty ->
+    planted_result ty syn sec [d; td; false; to; false; u] =
+    planted_result ty unknown_sample sec [d; td; false; to; false; u].
+Proof. exact unknown_names_like_sample. Qed.
+Print Assumptions C20_unknown_names_like_sample.
 
 (* the sweep really contains every subset *)
 Theorem C20_all_subsets_complete :
